@@ -259,6 +259,17 @@ func (g *gen) elabName(name string, e *env) (Val, error) {
 			}
 		}
 	}
+	// sentinel errors of other loaded packages (a callee's contract is elaborated at call sites elsewhere)
+	for _, sp := range g.prog.spkgs {
+		if sp == nil {
+			continue
+		}
+		if gl, ok := sp.Members[name].(*ssa.Global); ok {
+			if t, ok := sentinelErr(gl); ok {
+				return Val{T: t, S: "Iface", GoT: gl.Type().(*types.Pointer).Elem()}, nil
+			}
+		}
+	}
 	// constants of other loaded packages (contracts are evaluated at call sites in other packages too)
 	for _, pk := range g.prog.pkgs {
 		if obj, ok := pk.Types.Scope().Lookup(name).(*types.Const); ok {
